@@ -113,14 +113,12 @@ Variables (mods : list name) (imports : list (name * name)).
 Notation gF := (build_graph ceqb mods imports None).
 Notation gL := (build_graph ceqb mods imports (Some k)).
 
-Hypothesis imports_known : forall x y, In (x, y) imports ->
-  In x (build_nodes ceqb None mods imports) /\ In y (build_nodes ceqb None mods imports).
 Hypothesis no_down_import : forall x y, In (x, y) imports -> prefixb x y = false.
 
 Lemma wf_build lim : wf_graph (build_graph ceqb mods imports lim).
 Proof.
   intros a b H. apply (in_build_imps ceqb ceqb_spec) in H.
-  destruct H as [x [y [_ [_ [_ [_ [Ha [Hb _]]]]]]]]. cbn [nodes build_graph]. auto.
+  destruct H as [x [y [_ [_ [_ [_ [_ [_ [Ha [Hb _]]]]]]]]]]. cbn [nodes build_graph]. auto.
 Qed.
 
 Lemma gF_imports x y : In (x, y) (imps gF) -> In (x, y) imports.
@@ -129,13 +127,13 @@ Proof. intros H. apply (in_build_imps_nolimit ceqb ceqb_spec) in H. tauto. Qed.
 (* an import of the full graph survives truncation as soon as its truncated ends differ and are no hierarchy pair *)
 Lemma to_gL x y : In (x, y) (imps gF) -> fl x <> fl y -> childb (fl x) (fl y) = false -> In (fl x, fl y) (imps gL).
 Proof.
-  intros H Hne Hc. apply (quotient_imps ceqb ceqb_spec k mods imports _ _ imports_known).
+  intros H Hne Hc. apply (quotient_imps ceqb ceqb_spec k mods imports).
   exists x, y. auto.
 Qed.
 
 Lemma from_gL a b : In (a, b) (imps gL) -> exists x y, In (x, y) (imps gF) /\ a = fl x /\ b = fl y.
 Proof.
-  intros H. apply (quotient_imps ceqb ceqb_spec k mods imports _ _ imports_known) in H.
+  intros H. apply (quotient_imps ceqb ceqb_spec k mods imports) in H.
   destruct H as [x [y [H [-> [-> _]]]]]. eauto.
 Qed.
 
